@@ -15,6 +15,8 @@ import (
 	"verifharness/mc"
 	"verifharness/sched"
 	"verifharness/world"
+
+	shimsync "github.com/bartventer/httpcache/zzverif/shimsync"
 )
 
 // C16 — concurrent use of one transport is race-free; responses are caller-owned.
@@ -211,6 +213,8 @@ func runC16(x *mc.X) {
 
 	s := sched.New(x, bound)
 	w.Conn.Hook = func(kind, key string) { s.Point("store: " + kind + " " + short(key)) }
+	shimsync.Hook = func(op string) { s.Point(op) }
+	defer func() { shimsync.Hook = nil }()
 	w.Origin.Handler = c16OriginHandler(x, state, s.Point)
 	results := make([]*c16Result, len(prog))
 	for ti, ri := range prog {
@@ -220,6 +224,7 @@ func runC16(x *mc.X) {
 	}
 	s.Run()
 	w.Conn.Hook = nil
+	shimsync.Hook = nil
 	x.Transitions(s.Steps())
 	for _, l := range s.Trace {
 		x.Logf("%s", l)
